@@ -145,3 +145,49 @@ func sortedKeys(m map[string]int64) []string {
 	sort.Strings(ks)
 	return ks
 }
+
+// maxProofDepth is the limit of go/storage/mkvs/syncer/proof.go (verifyProof is entered with the
+// depth of a node slot, the root at depth 0, and fails when depth > 128).
+const maxProofDepth = 128
+
+// measureDepth walks the stored tree and returns the maximum depth of a node (root = 0) and the
+// maximum depth with which the proof verifier would be entered for the tree: every child slot of
+// an internal node, present or nil, is verified at the node's depth + 1.
+func measureDepth(ndb api.NodeDB, root node.Root) (maxNode, proofDepth int, err error) {
+	if root.Hash.IsEmpty() {
+		return 0, 0, nil
+	}
+	var walk func(ptr *node.Pointer, depth int) error
+	walk = func(ptr *node.Pointer, depth int) error {
+		if ptr == nil {
+			return nil
+		}
+		nd := ptr.Node
+		if nd == nil {
+			var err error
+			if nd, err = ndb.GetNode(root, ptr); err != nil {
+				return err
+			}
+		}
+		if depth > maxNode {
+			maxNode = depth
+		}
+		if depth > proofDepth {
+			proofDepth = depth
+		}
+		if n, ok := nd.(*node.InternalNode); ok {
+			if depth+1 > proofDepth {
+				proofDepth = depth + 1
+			}
+			if err := walk(n.Left, depth+1); err != nil {
+				return err
+			}
+			if err := walk(n.Right, depth+1); err != nil {
+				return err
+			}
+		}
+		return nil
+	}
+	err = walk(&node.Pointer{Clean: true, Hash: root.Hash}, 0)
+	return
+}
